@@ -169,6 +169,51 @@ def scenarios():
             v.append(("one-bundle-added", "add_bundle(bundle) did not register the bundle under the requested identifier"))
         return v
     yield "add_bundle:plain", plain_bundle
+    # generated pairs (replay/common.py generator: bundles, clashing prefixes, default namespaces at both levels,
+    # repeated identifiers, every value kind)
+    import os as _os, sys as _sys
+    _sys.path.insert(0, _os.path.dirname(_os.path.abspath(__file__)))
+    import common as _c
+    n_pairs = int(_os.environ.get("C09_GENERATED_PAIRS", "40"))
+    feats = _c.Gen.ALL - {"odd-prefix", "unregistered-datatype"}
+
+    def gen_pair(i):
+        docs = [d_ for _, d_ in _c.documents(1000 + i, 2, feats, max_records=4)]
+        return docs[0], docs[1]
+
+    for i in range(n_pairs):
+        def upd_g(i=i):
+            x, y = gen_pair(i)
+            bx, by = _c.strict(x), _c.strict(y)
+            x.update(y)
+            ax = _c.strict(x)
+            v = []
+            want = {}
+            for k in set(bx) | set(by):
+                want[k] = Counter(dict(bx.get(k, ()))) + Counter(dict(by.get(k, ())))
+            got = {k: Counter(dict(ax.get(k, ()))) for k in ax}
+            if got != want:
+                v.append(("others-records-copied", "generated pair #%d: update() result is not the bundle-wise multiset sum of both documents" % i))
+            if _c.strict(y) != by:
+                v.append(("other-unchanged", "generated pair #%d: update() changed the other document" % i))
+            return v
+        yield "update:generated#%d" % i, upd_g
+
+        def flat_g(i=i):
+            x, _ = gen_pair(i)
+            bx = _c.strict(x)
+            f = x.flattened()
+            want = Counter()
+            for k in bx:
+                want += Counter(dict(bx[k]))
+            af = _c.strict(f)
+            v = []
+            if Counter(dict(af.get("", ()))) != want or len(af) != 1:
+                v.append(("same-record-key", "generated #%d: flattened() is not the multiset union of the document's and its bundles' records" % i))
+            if _c.strict(x) != bx:
+                v.append(("source-unchanged", "generated #%d: flattened() changed its source" % i))
+            return v
+        yield "flattened:generated#%d" % i, flat_g
 
 
 def main():
@@ -179,6 +224,8 @@ def main():
     ap.add_argument("--seed", type=int, default=0)
     ap.add_argument("--out")
     a = ap.parse_args()
+    import os
+    os.environ["C09_GENERATED_PAIRS"] = "200" if a.tier == "thorough" else "40"
     failures = {}
     n = 0
     for key, thunk in scenarios():
@@ -195,7 +242,7 @@ def main():
         for f in failures.values():
             print("still failing:", f["what"])
         return 1 if failures else 0
-    res = {"evaluations": n, "distinct": n, "rule": "pairs of three hand-built documents x {update, update twice, flattened, add_bundle and its refusals}",
+    res = {"evaluations": n, "distinct": n, "rule": "pairs of three hand-built documents x {update, update twice, flattened, add_bundle and its refusals} + generated pairs of documents (replay/common.py) x {update, flattened}",
            "failures_found": len(failures), "failures": list(failures.values())}
     if a.out:
         json.dump(res, open(a.out, "w"), indent=1)
